@@ -1,6 +1,6 @@
 (* Dispatch.v — one entry point `run op arg` for every executable model and spec.
    Used identically by the extracted runner (coq/extract) and by `Eval vm_compute` re-evaluation. *)
-From Verif Require Import PyVal Rows Enc ComparableGen AsIndicesGen Order Sort SortSpec Dedup DedupSpec Basics SetOps SetSpec Joins Relational HashJoins Reductions GroupSpec Machines Selects Transforms Reshape Csv Tees TempFiles Db DbProgGen.
+From Verif Require Import PyVal Rows Enc ComparableGen AsIndicesGen Order Sort SortSpec Dedup DedupSpec Basics SetOps SetSpec Joins Relational HashJoins Reductions GroupSpec Machines Selects Transforms Reshape Csv Tees TempFiles Db DbProgGen GenIR StreamGen.
 Open Scope Z_scope.
 
 Definition run_cmp (arg : val) : val :=
@@ -964,6 +964,37 @@ Definition run_db_load (arg : val) : val :=
   | _ => bad_input
   end.
 
+(* ---- streaming skeletons (C02) ---------------------------------------------------------------------------------------- *)
+(* stream_info: qualified name of a generator function / constructor -> (known, wf_map, wf_filter, slack, header_only, pull_free) *)
+Definition run_stream_info (arg : val) : val :=
+  match arg with
+  | VSeq _ [VStr kind; VStr name] =>
+      let tbl := if zs_eqb kind "ctor" then ctor_skeletons else gen_skeletons in
+      match find (fun p => zl_eqb name (zs (fst p))) tbl with
+      | Some (_, s) => vtuple [vbool true; vbool (wf_map s); vbool (wf_filter s); vnat (slack s); vbool (header_only s);
+                               vbool (pull_free s)]
+      | None => vtuple [vbool false]
+      end
+  | _ => bad_input
+  end.
+
+(* stream_judge: (qualified generator name, k, rows pulled from the sources when the k-th row was delivered) -> is that
+   within the bound the theorem gives for the regenerated skeleton?  (true when the skeleton is not in streaming normal
+   form: then the theorem says nothing) *)
+Definition run_stream_judge (arg : val) : val :=
+  match arg with
+  | VSeq _ [VStr name; kv; pv] =>
+      match dec_nat kv, dec_nat pv with
+      | Some k, Some p =>
+          match find (fun q => zl_eqb name (zs (fst q))) gen_skeletons with
+          | Some (_, s) => vbool (if wf_map s then Nat.leb p (Nat.pred k + slack s) else true)
+          | None => vbool true
+          end
+      | _, _ => bad_input
+      end
+  | _ => bad_input
+  end.
+
 Definition run (op : list Z) (arg : val) : val :=
   if zs_eqb op "cmp" then run_cmp arg
   else if zs_eqb op "sort" then run_sort arg
@@ -996,6 +1027,8 @@ Definition run (op : list Z) (arg : val) : val :=
   else if zs_eqb op "tee" then run_tee arg
   else if zs_eqb op "tf_run" then run_tf_run arg
   else if zs_eqb op "db_load" then run_db_load arg
+  else if zs_eqb op "stream_info" then run_stream_info arg
+  else if zs_eqb op "stream_judge" then run_stream_judge arg
   else if zs_eqb op "df_run" then run_df_run arg
   else if zs_eqb op "addfields" then run_addfields arg
   else if zs_eqb op "select" then run_select arg
